@@ -18,6 +18,7 @@ import (
 	"time"
 
 	"github.com/invopop/gobl"
+	"github.com/invopop/gobl/bill"
 	"github.com/invopop/gobl/dsig"
 	"github.com/invopop/gobl/schema"
 
@@ -178,6 +179,9 @@ func (r *c14runner) runCase(name string, data []byte) {
 		return
 	}
 	r.stats["parsed"]++
+	// the invoice-level operations cost two more calculations each: on every
+	// well-formed generated document, and on one mutant in sixteen
+	extra := strings.HasPrefix(name, "gen-") || hashStrings([]string{name})%16 == 0
 	ops := []struct {
 		name string
 		fn   func(e *gobl.Envelope) error
@@ -201,6 +205,26 @@ func (r *c14runner) runCase(name string, data []byte) {
 		{"replicate", func(e *gobl.Envelope) error { _, err := e.Replicate(); return err }},
 		{"options-schema", func(e *gobl.Envelope) error { _, err := e.CorrectionOptionsSchema(); return err }},
 		{"extract", func(e *gobl.Envelope) error { _ = e.Extract(); _ = e.Signed(); return nil }},
+		// the invoice's own operations a caller reaches through Extract
+		// (they are documented for calculated invoices: only run on what calculates and validates)
+		{"invert", func(e *gobl.Envelope) error {
+			if !extra || e.Calculate() != nil || e.Validate() != nil {
+				return nil
+			}
+			if inv, ok := e.Extract().(*bill.Invoice); ok && inv != nil && inv.Totals != nil {
+				return wrapPlain(inv.Invert())
+			}
+			return nil
+		}},
+		{"remove-included-taxes", func(e *gobl.Envelope) error {
+			if !extra || e.Calculate() != nil || e.Validate() != nil {
+				return nil
+			}
+			if inv, ok := e.Extract().(*bill.Invoice); ok && inv != nil && inv.Totals != nil {
+				return wrapPlain(inv.RemoveIncludedTaxes())
+			}
+			return nil
+		}},
 		{"marshal", func(e *gobl.Envelope) error {
 			_, err := json.Marshal(e)
 			if err != nil {
@@ -229,6 +253,15 @@ func (r *c14runner) runCase(name string, data []byte) {
 		}
 		r.op(o.name, func() error { return o.fn(e2) })
 	}
+}
+
+// wrapPlain: the document-level methods return plain or validation errors, not
+// *gobl.Error values; they are not judged for their key.
+func wrapPlain(err error) error {
+	if err == nil {
+		return nil
+	}
+	return gobl.ErrCalculation.WithCause(err)
 }
 
 func schemaWithData(o []byte) schema.Option {
@@ -461,13 +494,13 @@ func countPositions(root *jmut.Node) int {
 // ---- child -------------------------------------------------------------------
 
 type c14job struct {
-	Kind string `json:"kind"` // "mut" | "raw" | "pair"
-	File string `json:"file,omitempty"`
-	From int    `json:"from,omitempty"`
-	To   int    `json:"to,omitempty"`
-	Seed int64  `json:"seed,omitempty"`
-	N    int    `json:"n,omitempty"`
-	Only string `json:"only,omitempty"` // run just this case name (re-run of a suspect)
+	Kind string   `json:"kind"` // "mut" | "raw" | "pair"
+	File string   `json:"file,omitempty"`
+	From int      `json:"from,omitempty"`
+	To   int      `json:"to,omitempty"`
+	Seed int64    `json:"seed,omitempty"`
+	N    int      `json:"n,omitempty"`
+	Only string   `json:"only,omitempty"` // run just this case name (re-run of a suspect)
 	Keys []string `json:"keys,omitempty"` // "addkey": member names to add at position From
 }
 
